@@ -20,7 +20,7 @@ from . import shapes_common as sc
 from .shapes_common import Fr
 
 PID = "C04"
-PROOF_FILES = ["theories/Props/C04.v", "theories/Proofs/AabbProofs.v", "theories/Spec/Shapes.v", "theories/Base/RVec2.v"]
+PROOF_FILES = ["theories/Props/C04.v", "theories/Proofs/AabbProofs.v", "theories/Proofs/AabbProofsB.v", "theories/Spec/Shapes.v", "theories/Base/RVec2.v"]
 KNOWN_FILE = cm.VERIF / "known_findings_C04.json"
 
 
